@@ -23,6 +23,14 @@ CLAIMED = {
          "The grid of nine stack types x nine operations x depths 0..8 x boundary indices is enumerated completely with several value variations per cell; random states add arbitrary contents. Every type is compared with the same generic position map on the whole snapshot, plus a multiset conservation invariant. Depths above 8 are only sampled.",
          "Trusted: the generic position map (refmodel::stack_op) and the clamp formula documented in the instruction comments.",
          "DESIGN.md section 4, C05"),
+ "C08": ("PBT of CODE list instructions and the Item API against a tree-algebra reference, plus metamorphic relations through the real instructions",
+         "Generated code trees (every atom kind, patterns drawn from the tree's own sub-items, indices in [-2S,2S] and extreme) are run through each listed CODE instruction by name and through Item::{size,traverse,insert,contains,container,substitute,equals}; whole snapshots are compared with the pre-order tree algebra, and EXTRACT-after-INSERT, EXTRACT-at-POSITION, DISCREPANCY symmetry/zero and atom conservation are checked through the implementation alone. Exploration over sampled trees up to depth 6 / 40 points.",
+         "Trusted: tree algebra in harness/src/refmodel.rs; operand order of SUBST/CONTAINS/MEMBER and NTH's modulus follow the unit tests; listed unspecified corners are not value-compared.",
+         "DESIGN.md section 4, C08"),
+ "C09": ("enumerated length x length x offset grid with sampled elements + proptest random states against a per-instruction vector reference",
+         "For the element-wise operations the complete grid len(second) 0..8 x len(top) 0..8 x offsets -10..10 plus extreme offsets is enumerated with random element values; all other C09 vector instructions run on random states with boundary elements and indices around the vector length. Whole snapshots are compared with the README/comment semantics per instruction name, so a mis-registered name fails under its own name.",
+         "Trusted: vector part of harness/src/refmodel2.rs. Size operands are kept <= 4096 (C15 covers magnitudes). Float aggregates compared with 1e-5 relative tolerance; listed unspecified corners not value-compared.",
+         "DESIGN.md section 4, C09"),
 }
 PENDING_REASON = "check not built yet in this round (work in progress, see DESIGN.md section 4 for the planned check)"
 
